@@ -26,6 +26,8 @@
 (***************************************************************************)
 EXTENDS Integers, Sequences, FiniteSets, TLC
 CONSTANTS RecvDeadline,      \* does a read inside a PDU give up after the network timeout?
+          ArtimEveryLoop,    \* is the ARTIM timer tested on every provider loop, even while the peer keeps data coming?
+          ServerHandshakeDeadline,  \* does the listener's TLS handshake with a new client have a deadline?
           Dribbles           \* how many late pieces a dribbling peer may still send
 
 Roles == {"acceptor", "requestor"}
@@ -35,11 +37,18 @@ Phases == {"assoc_rq",      \* acceptor, Sta2: ARTIM (provider thread) and the A
            "idle",          \* Sta6, nothing outstanding: network (idle) timer in the association thread
            "dimse_rsp",     \* requestor, Sta6: DIMSE timeout in the user's send_c_*() call
            "dataset",       \* acceptor, Sta6: command set received, data set PDUs outstanding: network timer
-           "release_rp"}    \* Sta7: ACSE timeout in the user's release() call
+           "release_rp",    \* Sta7: ACSE timeout in the user's release() call
+           "closing",       \* Sta13: A-ABORT / A-ASSOCIATE-RJ / A-RELEASE-RP sent, waiting for the peer to close: ARTIM (provider thread)
+           "tls"}           \* TLS handshake right after the TCP connection: requestor under the connection timeout (provider
+                            \* thread, AE-1); acceptor inside AssociationServer.get_request, i.e. in the listener's accept loop
 PhaseOK(r, p) == CASE p = "assoc_rq" -> r = "acceptor" [] p = "assoc_ac" -> r = "requestor"
                    [] p = "dimse_rsp" -> r = "requestor" [] p = "dataset" -> r = "acceptor" [] OTHER -> TRUE
 Cuts == {"boundary", "header", "body"}      \* where the peer stops: between PDUs, inside the 6-byte header, inside the body
-Styles == {"silence", "dribble"}
+Styles == {"silence", "dribble", "flood"}   \* flood: complete PDUs (ignored in Sta13) keep arriving, the connection is never closed
+ScenarioOK(r, p, c, st) == /\ PhaseOK(r, p)
+                           /\ (st = "flood" => p = "closing")
+                           /\ (p \in {"closing", "tls"} => c = "boundary" /\ st # "dribble")
+                           /\ (p = "tls" => st = "silence")
 
 VARIABLES role, phase, cut, style,   \* the scenario
           prov,      \* provider thread: "loop" | "recv" (blocked in AssociationSocket.recv) | "done"
@@ -51,21 +60,22 @@ VARIABLES role, phase, cut, style,   \* the scenario
           done       \* every thread ended, socket closed
 vars == <<role, phase, cut, style, prov, have, wire, left, timer, closing, done>>
 
-Init == /\ role \in Roles /\ phase \in Phases /\ PhaseOK(role, phase)
-        /\ cut \in Cuts /\ style \in Styles
-        /\ prov = "loop" /\ have = "none"
-        /\ wire = (cut # "boundary")                 \* the first piece of the PDU (if any) is on the socket
+Init == /\ role \in Roles /\ phase \in Phases /\ cut \in Cuts /\ style \in Styles
+        /\ ScenarioOK(role, phase, cut, style)
+        /\ prov = IF phase = "tls" THEN "handshake" ELSE "loop"
+        /\ have = "none"
+        /\ wire = (cut # "boundary" \/ style = "flood")   \* the first piece of the PDU (if any) / the flood is on the socket
         /\ left = IF style = "dribble" THEN Dribbles ELSE 0
         /\ timer = "running" /\ closing = FALSE /\ done = FALSE
 
 \* ---- peer: a dribbling peer sends another piece (never the last one) ----
-PeerPiece == /\ left > 0 /\ ~wire /\ ~done /\ cut # "boundary"
+PeerPiece == /\ left > 0 /\ ~wire /\ ~done /\ cut # "boundary" /\ style = "dribble"
              /\ wire' = TRUE /\ left' = left - 1
              /\ UNCHANGED <<role, phase, cut, style, prov, have, timer, closing, done>>
 
 \* ---- provider thread ----
 \* loop iteration: select says data is ready -> _read_pdu_data -> recv(6) / recv(length)
-ProvRead == /\ prov = "loop" /\ wire /\ ~done
+ProvRead == /\ prov = "loop" /\ wire /\ ~done /\ style # "flood"
             /\ wire' = FALSE
             /\ have' = IF cut = "header" THEN "header_part" ELSE "header"     \* the piece never completes the PDU
             /\ prov' = "recv"                                                   \* recv() loops for the missing bytes
@@ -81,6 +91,22 @@ ProvRecvTimeout == /\ RecvDeadline /\ prov = "recv" /\ ~wire
 ProvArtim == /\ prov = "loop" /\ ~wire /\ phase = "assoc_rq" /\ timer = "expired"
              /\ timer' = "handled" /\ closing' = TRUE
              /\ UNCHANGED <<role, phase, cut, style, prov, have, wire, left, done>>
+\* Sta13 with nothing to read: _is_transport_event closes the connection at once
+ProvSta13Close == /\ prov = "loop" /\ phase = "closing" /\ ~wire /\ ~closing
+                  /\ closing' = TRUE
+                  /\ UNCHANGED <<role, phase, cut, style, prov, have, wire, left, timer, done>>
+\* Sta13 under a flood: one loop = the ARTIM test (if it is made on every loop), then read one PDU and ignore it (AA-6 / AA-7);
+\* the flood goes on, so a loop that does not act on the timer changes nothing
+ProvFloodLoop == /\ prov = "loop" /\ style = "flood" /\ wire /\ ~closing
+                 /\ IF ArtimEveryLoop /\ timer = "expired"
+                    THEN timer' = "handled" /\ closing' = TRUE
+                    ELSE UNCHANGED <<timer, closing>>
+                 /\ UNCHANGED <<role, phase, cut, style, prov, have, wire, left, done>>
+\* a TLS handshake the peer never answers: ends only if it runs under a deadline
+HandshakeDeadline == role = "requestor" \/ ServerHandshakeDeadline
+ProvHandshakeTimeout == /\ prov = "handshake" /\ HandshakeDeadline
+                        /\ prov' = "loop" /\ closing' = TRUE
+                        /\ UNCHANGED <<role, phase, cut, style, have, wire, left, timer, done>>
 \* loop iteration that finds the A-ABORT / kill request: sends, closes, reaches Sta1 and ends
 ProvStop == /\ prov = "loop" /\ closing
             /\ prov' = "done"
@@ -91,7 +117,7 @@ Expire == /\ timer = "running" /\ ~done /\ timer' = "expired"
           /\ UNCHANGED <<role, phase, cut, style, prov, have, wire, left, closing, done>>
 
 \* ---- association / user thread: the wait guarded by the timer ends and the thread calls abort() (kill() spins) ----
-WaiterGivesUp == /\ timer = "expired" /\ phase # "assoc_rq"
+WaiterGivesUp == /\ timer = "expired" /\ phase \notin {"assoc_rq", "closing", "tls"}
                  /\ timer' = "handled" /\ closing' = TRUE
                  /\ UNCHANGED <<role, phase, cut, style, prov, have, wire, left, done>>
 \* (acceptor, Sta2: the association thread's ACSE wait ends too, but it only calls kill())
@@ -102,20 +128,20 @@ AcceptorAcseGivesUp == /\ timer = "expired" /\ phase = "assoc_rq" /\ prov # "loo
 AllEnd == /\ closing /\ prov = "done" /\ ~done /\ done' = TRUE
           /\ UNCHANGED <<role, phase, cut, style, prov, have, wire, left, timer, closing>>
 
-NodeStep == ProvRead \/ ProvRecvMore \/ ProvRecvTimeout \/ ProvArtim \/ ProvStop \/ Expire \/ WaiterGivesUp \/ AcceptorAcseGivesUp \/ AllEnd
+NodeStep == ProvRead \/ ProvRecvMore \/ ProvRecvTimeout \/ ProvArtim \/ ProvSta13Close \/ ProvFloodLoop \/ ProvHandshakeTimeout \/ ProvStop \/ Expire \/ WaiterGivesUp \/ AcceptorAcseGivesUp \/ AllEnd
 Next == PeerPiece \/ NodeStep
 Spec == Init /\ [][Next]_vars
 \* the node's threads and the clock make progress; the peer owes nothing
 FairSpec == Spec /\ WF_vars(NodeStep)
 
-TypeOK == /\ prov \in {"loop", "recv", "done"} /\ have \in {"none", "header_part", "header", "all"}
+TypeOK == /\ prov \in {"loop", "recv", "handshake", "done"} /\ have \in {"none", "header_part", "header", "all"}
           /\ timer \in {"running", "expired", "handled"} /\ left \in 0..Dribbles
 C08_Ends == <>done
 \* the shape of the failure: the timeout has been acted upon, yet the provider sits in recv() with nothing to read
 Stuck == closing /\ prov = "recv" /\ ~wire /\ left = 0
 C08_NeverStuck == ~Stuck
 
-BoundaryOnly == cut = "boundary"
+BoundaryOnly == cut = "boundary" /\ ~(phase = "tls" /\ role = "acceptor")
 NoNext == FALSE /\ UNCHANGED vars
 CaseSpec == Init /\ [][NoNext]_vars      \* (scenario export: initial states only)
 Export == PrintT(<<"CASE", [role |-> role, phase |-> phase, cut |-> cut, style |-> style]>>)
